@@ -159,7 +159,7 @@ def classify(ob, parsed):
                 else:
                     failures.append({'desc': desc, 'loc': c['loc'], 'kind': 'assertion' if '.assertion.' in nm else nm.split('.')[-2] if '.' in nm else nm})
         elif st in ('UNDETERMINED', 'ERROR'):
-            inconcl.append('check undetermined: ' + desc[:120])
+            inconcl.append('checks undetermined (an unwinding assertion failed or CBMC reported an error)')
     for e in expected:
         if e not in expected_seen:
             failures.append({'desc': 'expected refusal not reachable: ' + e, 'loc': ob['harness'], 'kind': 'missing-refusal'})
